@@ -181,3 +181,44 @@ def run_narrow(prog, ctx=None):
                    "" if ok else "value %s stored into %s field %s (range %s): silently truncated" % (v, FT.get("s"), l["f"], r),
                    {"value": v.tojson(), "field_range": r.tojson()})
     return res
+
+
+def run_inlinefit(prog, ctx=None):
+    """INLINEFIT: content is placed in X->_val only under a capacity test against the *same* identifier's _max
+    (the nearest dominating condition that mentions an identifier's _max names X)"""
+    res = Result("INLINEFIT")
+    for f in sorted(prog.functions.values(), key=lambda f: (f.file, f.line)):
+        if f.nocfg:
+            continue
+        sites = []
+        for b, i, e in f.elements():
+            for n in walk_own(e):
+                if n.get("k") == "bin" and n.get("op") == "=":
+                    r = strip(n["b"], all_casts=True)
+                    LT = f.T(strip(n["a"], lvalue_to_rvalue=False).get("t"))
+                    if _ident_mem(r, "_val") and LT.get("k") == "ptr" and not f.T(LT.get("to")).get("const"):
+                        sites.append((b, i, n, norm(show(r["b"], f))))      # writable pointer to the inline store
+                elif n.get("k") == "call" and callee_name(n) in ("memcpy", "memset") and n.get("args"):
+                    d = strip(n["args"][0], all_casts=True)
+                    if _ident_mem(d, "_val") and cval(n["args"][2]) is None:
+                        sites.append((b, i, n, norm(show(d["b"], f))))
+        if not sites:
+            continue
+        dom = f.dominators()
+        for b, i, n, base in sites:
+            # dominating conditions that mention some identifier's _max, nearest first (largest dominator set = closest)
+            conds = []
+            for pb in dom[b.id]:
+                blk = f.blocks[pb]
+                if pb != b.id and blk.term and blk.term.get("cond") is not None:
+                    bases = {norm(show(m["b"], f)) for m in walk(blk.term["cond"]) if _ident_mem(m, "_max")}
+                    if bases:
+                        conds.append((len(dom[pb]), bases, blk.term.get("l", 0)))
+            if not conds:
+                continue
+            conds.sort(reverse=True)
+            near = conds[0]
+            ok = base in near[1]
+            res.ob("%s:%s" % (f.qn, norm(show(n, f))[:60]), ok, f, n.get("l", 0),
+                   "" if ok else "content is placed in %s->_val but the capacity test that guards it (line %s) reads %s->_max" % (base, near[2], ", ".join(sorted(near[1]))))
+    return res
